@@ -146,9 +146,11 @@ package labelmap
 //@   calls_havoc
 //@   modifies *
 //@   ghost g0 uint64 = 0
+//@   ghost n0 uint64 = 0
 //@   ghostset at "if d.NextLabel != 0 {": g0 = d.MaxRepoLabel
-//@   assert at "d.MaxLabel[v] = d.MaxRepoLabel": heldw("d.mlMu") && begin == g0 + 1 && end == g0 + numLabels && d.MaxRepoLabel == end
-//@   assert at "if err = d.persistNextLabel(); err != nil {": heldw("d.mlMu") && d.NextLabel == end
+//@   ghostset at "if d.NextLabel != 0 {": n0 = d.NextLabel
+//@   assert at "d.MaxLabel[v] = d.MaxRepoLabel": heldw("d.mlMu") && begin == g0 + 1 && end == g0 + numLabels && d.MaxRepoLabel == end && begin > g0 && end >= begin
+//@   assert at "if err = d.persistNextLabel(); err != nil {": heldw("d.mlMu") && d.NextLabel == end && begin > n0 && end >= begin
 //@   assert at "if err = d.persistMaxLabel(v); err != nil {": heldw("d.mlMu") && d.MaxRepoLabel == end && d.MaxLabel[v] == end
 //@   assert at "if err = d.persistMaxRepoLabel(); err != nil {": heldw("d.mlMu") && d.MaxRepoLabel == end
 
@@ -248,3 +250,32 @@ package labelmap
 //@   assume after "blockSize := d.BlockSize().(dvid.Point3d)": blockSize[0] > 0 && blockSize[1] > 0 && blockSize[2] > 0
 //@   assert at "ptsi, found := blockPts[bcoord]": blockSize[0] > 0 && blockSize[1] > 0 && blockSize[2] > 0 ==> len(bcoord) == 12 && be32(bcoord, 0) == zyx32(fdiv(pt[2], blockSize[2])) && be32(bcoord, 4) == zyx32(fdiv(pt[1], blockSize[1])) && be32(bcoord, 8) == zyx32(fdiv(pt[0], blockSize[0]))
 //@   assert at "ptsi, found := blockPts[bcoord]": blockSize[0] > 0 && blockSize[1] > 0 && blockSize[2] > 0 ==> bpt[0] == fmod(pt[0], blockSize[0]) && bpt[1] == fmod(pt[1], blockSize[1]) && bpt[2] == fmod(pt[2], blockSize[2])
+
+// setMapping (C11, C08): the stored encoding of a supervoxel's (version, body) tuples is read, extended
+// and written back in one write-locked section of its shard (two concurrent mapping changes of one
+// supervoxel at two versions must both survive).
+//@ func VCache.setMapping
+//@   prop C11 C08
+//@   requires vc != nil
+//@   safety_off
+//@   calls_havoc
+//@   lockbalance
+//@   modifies *
+//@   ghost ep int = 0
+//@   ghostset at "vm := lmap.fm[from]": ep = lockepoch("lmap.fmMu")
+//@   assert at "vm := lmap.fm[from]": heldw("lmap.fmMu")
+//@   assert at "lmap.fm[from] = vm.modify(v, to, true)": heldw("lmap.fmMu") && lockepoch("lmap.fmMu") == ep
+
+// loadVersionMapping (C03, C04: the map rebuilt from the mutation log at start-up equals the live one):
+// every supervoxel of every logged mapping operation is applied - none is filtered by looking at what
+// has been loaded so far (logs are replayed leaf-to-root, so "no entry yet" does not mean "unmapped").
+//@ func VCache.loadVersionMapping
+//@   prop C03 C04 C08
+//@   safety_off
+//@   calls_havoc
+//@   modifies *
+//@   ghost nset int = 0
+//@   ghost base int = 0
+//@   ghostset at "mapped := op.GetMapped()": base = nset
+//@   ghostset at "vc.setMapping(v, supervoxel, mapped)": nset = nset + 1
+//@   invariant loop 2: nset == base + rangeindex + 1
